@@ -11,7 +11,7 @@ if False and os.environ.get("C03_NOKF"):      # reproduce the findings: run with
 
 META = {
     "bounds": "synthetic curves over one-byte fields with the whole group enumerated (p=23 n=31, p=31 n=23, p=7 n=11, "
-              "cofactor-2 p=23 n=13; thorough also p=61 n=59 and p=251 n=223/239 where the bit length of n is 8), "
+              "cofactor-2 p=23 n=13; thorough also p=61 n=59; the p=251 curves, where the bit length of n is 8, gave no verdict inside the cap and are outside), "
               "algorithms ECDSA and GOST R 34.10; ALL hash bytes of length 1 (= field size), 2 and 3 (longer than the "
               "field) for BOTH byte orders, under the library's byte-granular truncation rule: *_be reads the big-endian "
               "integer of hash[0..min(len,B)) (leftmost = most significant bytes), *_le reads the little-endian integer "
@@ -74,7 +74,8 @@ def job(curve, mode, gost, endian, hlen, kf=True, fault_in=None, timeout=None, c
 
 def jobs(tier):
     out = []
-    curves = [1, 2, 8] if tier == "quick" else [1, 2, 8, 4, 3, 6, 7]
+    # curves 6, 7 (p = 251, 8-bit order): 1000-1500+ s per job on a loaded machine, 6 of 8 timed out in the thorough pass -> withdrawn
+    curves = [1, 2, 8] if tier == "quick" else [1, 2, 8, 4, 3]
     for c in curves:
         big = c in (6, 7, 3)
         for gost in (0, 1):
